@@ -138,3 +138,13 @@ def test_c09_minmax_simplification():
     a = sympy.Symbol("a", positive=True, integer=True)
     assert sympy.Max(3 * a, a + 2) == 3 * a
     assert sympy.Max(2, 3 - a) == 2
+
+
+def test_c11_f32_max_goal_four_columns():
+    import numpy as np
+    from accelforge.mapper.FFM._pareto_df.fast_pareto import fast_pareto_mask
+
+    a = np.array([[0, 0, 0, 0], [1, 1, 1, 1]], dtype=np.float32)
+    assert list(fast_pareto_mask(a, ["max", "min", "min", "min"])) == [True, True]
+    b = np.array([[0, 0, 0, 0], [0, 0, 0, 1], [1, 1, 1, 1], [0, 0, 0, 0]], dtype=np.float32)
+    assert list(fast_pareto_mask(b, ["min", "min", "min", "max"])) == [False, True, False, False]
